@@ -41,7 +41,7 @@ TOL_ID = 1e-12      # identity level
 TOL_F = 1e-8        # 100 x the local stopping rule 1e-10
 TOL_PS = 1e-6       # 100 x the plane-stress stopping rule (scale = max(sy, 1, 0.1 Czz) -> 1e-8)
 TOL_FD = 1e-5       # finite differences
-TOL_FD_PS = 1e-3    # finite differences through the plane-stress iteration (see check_tangent)
+TOL_FD_PS = 1e-4    # finite differences through the plane-stress iteration (see check_tangent)
 TOL_STATE = 1e-9    # returned stress vs stress of the returned state / inequalities after a local Newton
 TOL_SOLVERS = 1e-8
 TOL_COMMIT = 1e-3   # committed state vs state integrated at the saved displacement: the global Newton updates u once
@@ -269,8 +269,10 @@ def check_tangent(case, rec):
         keep = ok[..., None] & okP.all(axis=(2, 4)) & (actP == act[..., None, None, None]).all(axis=(2, 4))
         fd = (sigP[..., 0, :] - sigP[..., 1, :]) / (2 * hs[None, None, :, None, None])  # (Ne,nPg,3,j,i)
         col = np.swapaxes(Calg, -1, -2)                                                  # [j, i] = C[i, j]
-        err = np.abs(fd[:, :, :2] - col[:, :, None]).max(axis=-1)                        # (Ne,nPg,2,j)
-        err = err.min(axis=2)                                                            # disagreement must persist
+        rich = fd[:, :, 1] + (fd[:, :, 1] - fd[:, :, 0]) / 15.0                          # h^2 term removed
+        cand = np.stack([fd[:, :, 0], fd[:, :, 1], rich], axis=2)
+        err = np.abs(cand - col[:, :, None]).max(axis=-1)                                # (Ne,nPg,3,j)
+        err = err.min(axis=2)                                   # a disagreement must persist at h, h/4 and extrapolated
         if keep.any():
             # plane stress: the condensed tangent assumes sigma_zz = 0 exactly while the iteration stops at its
             # documented tolerance (eps_zz known to ~1e-9): honest tangent error up to ~1e-5 near sharp hardening
@@ -400,10 +402,10 @@ def simu_cases(draw):
     else:
         r = draw(gm.recipes3d(types=["TETRA4", "HEXA8", "PRISM6"], affine_ok=False, nmax=4))
         mode = "3D"
-    spec = draw(cr.behaviour_specs(modes=(mode,), surface=["vm", "vm", "hill"], hetero_ok=False))
-    # slow branches: a step whose unrelaxed trial stress is outside the surface while the relaxed one is inside
-    # is reported as non-converged by the local solve (frozen active set); keep that rare in FE runs
-    spec["branches"] = [[g, max(tau, 20.0 * spec["dt"])] for g, tau in spec["branches"]]
+    # no Maxwell branch next to a yield surface here: a Gauss point whose unrelaxed trial stress is outside the
+    # surface while the relaxed stress is inside is reported as non-converged by the local solve (active set frozen
+    # at the trial state), which happens at some point of almost every FE step (observed 45 % inconclusive runs)
+    spec = draw(cr.behaviour_specs(modes=(mode,), surface=["vm", "vm", "hill"], hetero_ok=False, branches_ok=False))
     nops = draw(st.integers(4, 10))
     ops, nsave = [["solve", draw(st.integers(2, 4))]], 0
     for _ in range(nops - 1):
@@ -588,7 +590,7 @@ SUBS = [
     Sub("tangent", check_tangent, gen=tangent_cases, quick=120, thorough=1500, shards=6),
     Sub("solvers", check_solvers, gen=solver_cases, quick=120, thorough=1500, shards=4),
     Sub("elastic_limit", check_elastic, gen=elastic_cases, quick=200, thorough=2000, shards=2),
-    Sub("simu_commit", check_simu, gen=simu_cases, quick=60, thorough=400, shards=8),
+    Sub("simu_commit", check_simu, gen=simu_cases, quick=100, thorough=400, shards=8),
     Sub("matpoint", check_matpoint, gen=matpoint_cases, quick=100, thorough=600, shards=4),
 ]
 
